@@ -21,4 +21,9 @@ CLAIMS["C02"] = {
     "text": "Decides on every CFG path: the value returned by HttpRequest::request is only borrowed into verify_response until the Ok edge of verification (or the no-handler edge) is crossed; build() yields metadata iff a handler is configured; a verification failure converts to CupValidation, leaves the exchange with no effect, and from the CupValidation arm no request/wait/parse/installer/policy/server-response event is reachable; on Err(OmahaRequest) no app-set update or last-contact write, one failure counted; failed event reports only record OmahaEventLost; failed pings only count and persist.",
     "note": "Replay resistance is reduced to nonce freshness (C03) plus the verifier (C01), not decided here. Trusts rustc's await/? lowering; infeasible CFG paths can only cause false alarms.",
 }
+CLAIMS["C05"] = {
+    "technique": "dominance by outcome-labelled edges (edge-cut reachability) on the interprocedural CFG of the long-running loop; provenance of RequestParams / install plan through calling contexts; backward-most-recent-answer rule for reboot_allowed",
+    "text": "Decides on every path of StateMachineBuilder::start's task: no effect before all_valid()==true; every request/installer call/non-schedule event lies behind the Ok|OkUpdateDeferred edge of update_check_allowed and negative decisions only reply Throttled; every RequestBuilder of a check is built from the decision's RequestParams (ping: fixed background) and the builder maps them to installsource/interactivity/updatedisabled/sameversionupdate; perform_install only behind UpdateDecision::Ok on the approved plan; perform_reboot only under Needed(_), built only when reboot_needed()==true and never after an installation error, and only after a most recent reboot_allowed()==true.",
+    "note": "oneshot_check (documented caller-forced check) is a named exception for the check/validity gates. Embedder traits are trusted to be reached only through their items.",
+}
 NOT_APPLICABLE = {}
